@@ -24,7 +24,7 @@ ASSUMPTIONS = [
 ]
 MONITORS = ("lost-bytes accounting: {path: bytes} of the workspace before vs after against the set of intact cache objects; audit-hook trail of "
             "removals as witness; shadow model of the link table for clean-up")
-REQUIRED_COUNTERS = ["checkouts", "uncached_files_in_workspace", "prompt_errors", "declining_prompt_calls", "normal_returns", "kind_swap_cases",
+REQUIRED_COUNTERS = ["damaged_cache_objects", "symlinked_link_records", "checkouts", "uncached_files_in_workspace", "prompt_errors", "declining_prompt_calls", "normal_returns", "kind_swap_cases",
                      "link_histories", "unused_link_queries", "remove_links_calls", "relink_cases", "store/local", "store/base",
                      "link/copy", "link/hardlink", "link/symlink"]
 
@@ -81,6 +81,17 @@ def run_shard(ctx):
                 res.count("declining_prompt_calls")
                 return False
 
+            if link == "copy" and rng.random() < 0.3:
+                # a damaged, unprotected cache object (e.g. left by an interrupted add) at the oid of a workspace file
+                from ..oracle import list_store
+
+                cobjs, _t, _s = list_store(croot)
+                held = {H("md5", v) for v in walk_files(ws).values() if v is not None}
+                for o in sorted(held & set(cobjs)):
+                    if rng.random() < 0.6:
+                        gen.replace_by_rename(cobjs[o], file_bytes(cobjs[o])[:-1] + b"\x00damaged")
+                        os.chmod(cobjs[o], 0o644)
+                        res.count("damaged_cache_objects")
             before = walk_files(ws)
             intact = colab.cache_intact_digests(croot)
             uncached = {k for k, v in before.items() if v is not None and H("md5", v) not in intact}
@@ -148,12 +159,23 @@ def run_shard(ctx):
             for i in range(rng.randrange(2, 7)):
                 nm = gen.name(rng, used={os.path.basename(p) for p in paths}, odd=0.3)
                 p = os.path.join(root, nm)
-                if rng.random() < 0.3:
+                r0 = rng.random()
+                if r0 < 0.3:
                     os.makedirs(p)
                     for j in range(rng.randrange(1, 4)):
                         with open(os.path.join(p, f"in{j}"), "wb") as f:
                             f.write(gen.small_content(rng))
                     paths[p] = "dir"
+                elif r0 < 0.5:
+                    # a checked-out file under the symlink link type: a symlink into some cache directory
+                    tdir = os.path.join(d, "linkcache")
+                    os.makedirs(tdir, exist_ok=True)
+                    tgt = os.path.join(tdir, f"obj{i}")
+                    with open(tgt, "wb") as f:
+                        f.write(gen.small_content(rng))
+                    os.symlink(tgt, p)
+                    paths[p] = "file"
+                    res.count("symlinked_link_records")
                 else:
                     with open(p, "wb") as f:
                         f.write(gen.small_content(rng))
@@ -163,6 +185,9 @@ def run_shard(ctx):
             interesting = False
 
             def touch_change(fp):
+                if os.path.islink(fp):
+                    gen.replace_by_rename(fp, gen.small_content(rng) + b"was-a-link")
+                    return
                 before = stat_token(fp)
                 with open(fp, "ab") as f:
                     f.write(b"m")
